@@ -82,7 +82,9 @@ type c17Row struct {
 }
 
 type c17Merge struct {
-	Rect []int `json:"rect"`
+	Rect []int `json:"rect"` // c1, r1, c2, r2 (1-based)
+	Rows int   `json:"rows"` // span of the region, computed by the spec
+	Cols int   `json:"cols"`
 	Ref  struct {
 		From c17Ref `json:"from"`
 		To   c17Ref `json:"to"`
@@ -239,10 +241,20 @@ type c17Obs struct {
 
 // c17Views holds, per view, the non-blank cells per sheet.
 type c17Views struct {
-	Grid, Tsv, Md, Doc [][]c17Obs
-	TsvExtra           []c17Obs
-	Err                map[string]string
-	Accessor           []string // accessor disagreements (Cell / CellByRef vs Rows)
+	Grid, Tsv, Md, Doc, Tables [][]c17Obs
+	Flags                      []c17Flags // merge metadata of the grid, per sheet
+	DocSpans                   []c17Flags // RowSpan/ColSpan > 1 of the model table, per sheet (table coordinates)
+	TsvExtra                   []c17Obs
+	Err                        map[string]string
+	Accessor                   []string // accessor disagreements (Cell / CellByRef vs Rows)
+}
+
+// c17Flags is the merge metadata a view exposes: its size, the cells flagged as part
+// of a region, and the cells flagged as root with their (rows, cols) span.
+type c17Flags struct {
+	W, H   int
+	Merged map[c17Pos]bool
+	Roots  map[c17Pos][2]int
 }
 
 func c17ParseMarkdownRow(line string) []string {
@@ -365,8 +377,19 @@ func c17Observe(path string, exps [][]c17Exp) *c17Views {
 				v.Err["grid"] = err.Error()
 				break
 			}
+			fl := c17Flags{H: len(sh.Rows), Merged: map[c17Pos]bool{}, Roots: map[c17Pos][2]int{}}
 			for ri, row := range sh.Rows {
+				if len(row) > fl.W {
+					fl.W = len(row)
+				}
 				for ci, cell := range row {
+					if cell.IsMerged {
+						fl.Merged[c17Pos{ci + 1, ri + 1}] = true
+					}
+					if cell.IsMergeRoot {
+						fl.Roots[c17Pos{ci + 1, ri + 1}] = [2]int{cell.MergeRows, cell.MergeCols}
+					}
+					// Cell.Value is documented as "the cell's display value": a covered cell shows nothing
 					if cell.Value == "" {
 						continue
 					}
@@ -381,12 +404,29 @@ func c17Observe(path string, exps [][]c17Exp) *c17Views {
 					}
 				}
 			}
+			v.Flags = append(v.Flags, fl)
 			for _, e := range exps[s] {
 				ref := xlsx.CellRef(e.C-1, e.R-1)
 				a := sh.CellByRef(ref)
 				b := sh.Cell(e.R-1, e.C-1)
 				if (a == nil) != (b == nil) || (a != nil && a.Value != b.Value) {
 					v.Accessor = append(v.Accessor, fmt.Sprintf("Sheet(%d).CellByRef(%s) disagrees with Cell(%d,%d)", s, ref, e.R-1, e.C-1))
+				}
+			}
+		}
+		// Tables(): headers = first table row, then the data rows
+		v.Tables = make([][]c17Obs, n)
+		for s, tb := range r.Tables() {
+			if s >= n {
+				break
+			}
+			rows := append([][]string{tb.Headers}, tb.Rows...)
+			for i, row := range rows {
+				for j, txt := range row {
+					if txt != "" {
+						d, _ := c17Project(txt)
+						v.Tables[s] = append(v.Tables[s], c17Obs{X: j + 1, Y: i + 1, Raw: txt, D: d})
+					}
 				}
 			}
 		}
@@ -423,6 +463,19 @@ func c17Observe(path string, exps [][]c17Exp) *c17Views {
 			if tbl == nil {
 				continue
 			}
+			if v.DocSpans == nil {
+				v.DocSpans = make([]c17Flags, n)
+			}
+			ds := c17Flags{H: len(tbl.Rows), Roots: map[c17Pos][2]int{}}
+			for i, row := range tbl.Rows {
+				if len(row) > ds.W {
+					ds.W = len(row)
+				}
+				for j, cell := range row {
+					ds.Roots[c17Pos{j + 1, i + 1}] = [2]int{cell.RowSpan, cell.ColSpan}
+				}
+			}
+			v.DocSpans[s] = ds
 			for i, row := range tbl.Rows {
 				for j, cell := range row {
 					if cell.Text != "" {
@@ -490,7 +543,7 @@ type c17Mismatch struct {
 //
 //	rule "abs" : no translation;  "rows": whole lines below (later sheets of the text);
 //	rule "free": one non-negative offset for the table (content box).
-func c17Compare(view, rule string, sh int, exp []c17Exp, covered []c17Pos, kinds map[c17Pos]string, rowR bool, obs []c17Obs) *c17Mismatch {
+func c17Compare(view, rule string, sh int, exp []c17Exp, covered []c17Pos, kinds map[c17Pos]string, rowR bool, obs []c17Obs, stale map[c17Disp]bool) *c17Mismatch {
 	mm := func(sym, what string) *c17Mismatch {
 		return &c17Mismatch{View: view, Symptom: sym, What: what, Sheet: sh}
 	}
@@ -591,6 +644,11 @@ func c17Compare(view, rule string, sh int, exp []c17Exp, covered []c17Pos, kinds
 		return mm("misplaced", "two shown cells map to one address")
 	case surplus:
 		for p, o := range obsAt {
+			if stale[o.D] && have[o.D] > need[o.D] {
+				return mm("merge-covered", fmt.Sprintf("%q is shown (at %s): it is the stale content of a cell covered by a merged region, which must be blank", o.Raw, xlsx.CellRef(p.C-1, p.R-1)))
+			}
+		}
+		for p, o := range obsAt {
 			if cov[p] && have[o.D] > need[o.D] {
 				return mm("merge-covered", fmt.Sprintf("%q shown at %s, a position covered by a merged region (must be blank)", o.Raw, xlsx.CellRef(p.C-1, p.R-1)))
 			}
@@ -614,12 +672,103 @@ func c17Compare(view, rule string, sh int, exp []c17Exp, covered []c17Pos, kinds
 	}
 }
 
-func c17Check(v *c17Views, exps [][]c17Exp, covered [][]c17Pos, kinds []map[c17Pos]string, rowR bool) *c17Mismatch {
+// c17SpanOK: a span is the region's size, or that size clipped to the extent of the view.
+func c17SpanOK(got, full, start, extent int) bool {
+	clipped := extent - start + 1
+	if clipped > full {
+		clipped = full
+	}
+	return got == full || got == clipped
+}
+
+// c17CheckMerges compares the merge metadata of the grid and the spans of the model
+// table with the declared regions (rect, rows, cols come from the spec).
+func c17CheckMerges(v *c17Views, exps [][]c17Exp, merges [][]c17Merge) *c17Mismatch {
+	for s := range merges {
+		if s >= len(v.Flags) {
+			break
+		}
+		fl := v.Flags[s]
+		inRegion := map[c17Pos]bool{}
+		roots := map[c17Pos]bool{}
+		for _, m := range merges[s] {
+			c1, r1, c2, r2 := m.Rect[0], m.Rect[1], m.Rect[2], m.Rect[3]
+			ref := xlsx.CellRef(c1-1, r1-1) + ":" + xlsx.CellRef(c2-1, r2-1)
+			for c := c1; c <= c2; c++ {
+				for r := r1; r <= r2; r++ {
+					inRegion[c17Pos{c, r}] = true
+					if c <= fl.W && r <= fl.H && !fl.Merged[c17Pos{c, r}] {
+						return &c17Mismatch{View: "grid", Sheet: s, Symptom: "merge-flags", What: fmt.Sprintf("%s lies in the merged region %s but is not flagged IsMerged (grid is %d columns x %d rows)", xlsx.CellRef(c-1, r-1), ref, fl.W, fl.H)}
+					}
+				}
+			}
+			roots[c17Pos{c1, r1}] = true
+			if c1 <= fl.W && r1 <= fl.H {
+				sp, ok := fl.Roots[c17Pos{c1, r1}]
+				if !ok {
+					return &c17Mismatch{View: "grid", Sheet: s, Symptom: "merge-flags", What: fmt.Sprintf("top-left cell of the merged region %s is not flagged IsMergeRoot (grid is %d columns x %d rows)", ref, fl.W, fl.H)}
+				}
+				if !c17SpanOK(sp[0], m.Rows, r1, fl.H) || !c17SpanOK(sp[1], m.Cols, c1, fl.W) {
+					return &c17Mismatch{View: "grid", Sheet: s, Symptom: "merge-flags", What: fmt.Sprintf("root of %s reports MergeRows x MergeCols = %d x %d, the region is %d x %d", ref, sp[0], sp[1], m.Rows, m.Cols)}
+				}
+			}
+		}
+		for p := range fl.Merged {
+			if !inRegion[p] {
+				return &c17Mismatch{View: "grid", Sheet: s, Symptom: "merge-flags", What: fmt.Sprintf("%s is flagged IsMerged but lies in no merged region", xlsx.CellRef(p.C-1, p.R-1))}
+			}
+		}
+		for p := range fl.Roots {
+			if !roots[p] {
+				return &c17Mismatch{View: "grid", Sheet: s, Symptom: "merge-flags", What: fmt.Sprintf("%s is flagged IsMergeRoot but is no region's top-left cell", xlsx.CellRef(p.C-1, p.R-1))}
+			}
+		}
+		// model table: the cell at the root's place spans the region (or what of it fits)
+		if s < len(v.DocSpans) && len(exps[s]) > 0 && len(v.Doc[s]) > 0 {
+			ds := v.DocSpans[s]
+			minC, minR, minX, minY := exps[s][0].C, exps[s][0].R, v.Doc[s][0].X, v.Doc[s][0].Y
+			for _, e := range exps[s] {
+				if e.C < minC {
+					minC = e.C
+				}
+				if e.R < minR {
+					minR = e.R
+				}
+			}
+			for _, o := range v.Doc[s] {
+				if o.X < minX {
+					minX = o.X
+				}
+				if o.Y < minY {
+					minY = o.Y
+				}
+			}
+			dc, dr := minC-minX, minR-minY
+			for _, m := range merges[s] {
+				x, y := m.Rect[0]-dc, m.Rect[1]-dr
+				if x < 1 || y < 1 || x > ds.W || y > ds.H {
+					continue // the root is outside the table (trimmed away)
+				}
+				sp := ds.Roots[c17Pos{x, y}]
+				if !c17SpanOK(sp[0], m.Rows, y, ds.H) || !c17SpanOK(sp[1], m.Cols, x, ds.W) {
+					ref := xlsx.CellRef(m.Rect[0]-1, m.Rect[1]-1) + ":" + xlsx.CellRef(m.Rect[2]-1, m.Rect[3]-1)
+					return &c17Mismatch{View: "doc", Sheet: s, Symptom: "merge-span", What: fmt.Sprintf("model cell of the top-left of %s has RowSpan x ColSpan = %d x %d, the region is %d x %d (table %d x %d)", ref, sp[0], sp[1], m.Rows, m.Cols, ds.H, ds.W)}
+				}
+			}
+		}
+	}
+	return nil
+}
+
+func c17Check(v *c17Views, exps [][]c17Exp, covered [][]c17Pos, kinds []map[c17Pos]string, rowR bool, merges [][]c17Merge, stale []map[c17Disp]bool) *c17Mismatch {
 	type vw struct {
 		name string
 		obs  [][]c17Obs
 	}
-	for _, w := range []vw{{"grid", v.Grid}, {"tsv", v.Tsv}, {"md", v.Md}, {"doc", v.Doc}} {
+	for _, w := range []vw{{"grid", v.Grid}, {"tables", v.Tables}, {"tsv", v.Tsv}, {"md", v.Md}, {"doc", v.Doc}} {
+		if w.name == "tables" && v.Tables == nil {
+			continue
+		}
 		if e, ok := v.Err[w.name]; ok {
 			return &c17Mismatch{View: w.name, Symptom: "error", What: e}
 		}
@@ -634,7 +783,7 @@ func c17Check(v *c17Views, exps [][]c17Exp, covered [][]c17Pos, kinds []map[c17P
 					rule = "rows"
 				}
 			}
-			if m := c17Compare(w.name, rule, s, exps[s], covered[s], kinds[s], rowR, w.obs[s]); m != nil {
+			if m := c17Compare(w.name, rule, s, exps[s], covered[s], kinds[s], rowR, w.obs[s], stale[s]); m != nil {
 				return m
 			}
 		}
@@ -645,7 +794,7 @@ func c17Check(v *c17Views, exps [][]c17Exp, covered [][]c17Pos, kinds []map[c17P
 			return &c17Mismatch{View: "tsv", Symptom: "extra", What: fmt.Sprintf("text has %d more non-empty fields after the last sheet, e.g. %q", len(v.TsvExtra), v.TsvExtra[0].Raw)}
 		}
 	}
-	return nil
+	return c17CheckMerges(v, exps, merges)
 }
 
 // ------------------------------------------------------------ replay
@@ -693,18 +842,29 @@ func c17Replay(i int, raw []byte) Result {
 	exps := make([][]c17Exp, len(c.Sheets))
 	covered := make([][]c17Pos, len(c.Sheets))
 	kinds := make([]map[c17Pos]string, len(c.Sheets))
+	merges := make([][]c17Merge, len(c.Sheets))
+	stale := make([]map[c17Disp]bool, len(c.Sheets))
 	for s, sh := range c.Sheets {
 		exps[s] = sh.Cells
 		covered[s] = sh.Covered
+		merges[s] = sh.Merges
 		kinds[s] = map[c17Pos]string{}
+		stale[s] = map[c17Disp]bool{}
+		cov := map[c17Pos]bool{}
+		for _, p := range sh.Covered {
+			cov[p] = true
+		}
 		for _, r := range sh.Rows {
 			for _, cell := range r.Cells {
 				kinds[s][c17Pos{cell.C, cell.R}] = cell.T
+				if cov[c17Pos{cell.C, cell.R}] && cell.T != "z" {
+					stale[s][cell.D] = true // content of a covered cell (for naming the symptom)
+				}
 			}
 		}
 	}
 	v := c17Observe(path, exps)
-	if m := c17Check(v, exps, covered, kinds, c.RowR); m != nil {
+	if m := c17Check(v, exps, covered, kinds, c.RowR, merges, stale); m != nil {
 		r := fail(m.View, "C17:"+m.View+":"+m.Symptom, fmt.Sprintf("sheet %d, %s view: %s", m.Sheet+1, m.View, m.What),
 			map[string]interface{}{"case": json.RawMessage(raw), "observed": c17ObsDump(v)})
 		r.Nontrivial, r.Key, r.Evals = res.Nontrivial, res.Key, 4
@@ -729,7 +889,7 @@ func c17ObsDump(v *c17Views) map[string]interface{} {
 		}
 		return out
 	}
-	return map[string]interface{}{"grid(col,row)": d(v.Grid), "tsv(field,line)": d(v.Tsv), "md(col,row)": d(v.Md), "doc(col,row)": d(v.Doc), "errors": v.Err}
+	return map[string]interface{}{"grid(col,row)": d(v.Grid), "tsv(field,line)": d(v.Tsv), "md(col,row)": d(v.Md), "doc(col,row)": d(v.Doc), "tables(col,row)": d(v.Tables), "errors": v.Err}
 }
 
 // ------------------------------------------------------------ codec
